@@ -560,12 +560,8 @@ func runStatsFiles(ctx *core.Ctx, c05 bool) {
 	workers := 16
 	if !c05 {
 		// C06 searches every file per row group and once more through MultiRowGroup: fewer files in thorough
-<<<<<<< HEAD
 		nfiles = ctx.Scale(2800, 16000)
-=======
-		nfiles = ctx.Scale(2800, 24000)
 		workers = 8
->>>>>>> w-stats
 	}
 	var wg sync.WaitGroup
 	for w := 0; w < workers; w++ {
